@@ -190,6 +190,12 @@ def line_protocol_rules(chk):
                 def decide(it, path, term, tag_is_str=tag_is_str, field_is_str=field_is_str, ts=ts):
                     if term[0] == "call" and term[1] == ISINSTANCE and len(term[2]) == 2 and term[2][1] == STR:
                         x = term[2][0]
+                        # the result of a text method of a text is text:  key.replace(...).replace(...)
+                        while x[0] == "call" and x[1][0] == "attr" and x[1][2] in Interp.STR_TO_STR:
+                            inner = decide(it, path, ("call", ISINSTANCE, (x[1][1], STR), (), 0))
+                            if inner is not True:
+                                break
+                            return True
                         if coerced(x) is not None or (x[0] == "call" and x[1] == STR):
                             return True
                         if (x[0] == "bound" and x[1] in key_names and x[1] not in value_names) or x == ("sym", "name"):
@@ -426,7 +432,7 @@ def line_slots(prog):
     return {
         "resolution": slots.attr_from_param(prog, cls, "resolution"),
         "defaults": slots.attr_from_expr(prog, cls, lambda v, t: "Mapping" in t and "tags" in t and "set(" not in t, "default tags"),
-        "whitelist": slots.attr_from_expr(prog, cls, lambda v, t: ("set(tags)" in t or "set(tags.keys())" in t) and "RECORD_ATTRIBUTES" not in t, "tag whitelist"),
+        "whitelist": slots.attr_from_expr(prog, cls, lambda v, t: "tags" in t and "RECORD_ATTRIBUTES" not in t and ("set(" in t or any(isinstance(x, (ast.SetComp, ast.Set)) for x in ast.walk(v))), "tag whitelist"),
         "blacklist": slots.attr_from_expr(prog, cls, lambda v, t: "RECORD_ATTRIBUTES" in t, "field blacklist"),
     }
 
